@@ -287,3 +287,264 @@ Proof.
       split; [exact K|]. intros Hd. right. right. split; [reflexivity|apply A; exact Hd].
     + split; [constructor|]. intros _. right. left. exists r. split; reflexivity.
 Qed.
+
+(* ------------------------------------------------------------------ setup / teardown phases (C07: brackets elided together) *)
+(* the phase's start event is still held: nothing at all has been fired by this thread *)
+Definition held (start : revt) (s : tstate) : Prop :=
+  events_of (ts_out s) = [] /\
+  ((ts_step s = None /\ ts_pending s = [start]) \/
+   (exists d th, ts_step s = Some d /\ ts_pending s = [start; RStepStart (ts_loc s) (Some d) th])).
+
+Section Phase.
+  Variable start : revt.
+  Hypothesis start_result : result_level start = true.
+  Hypothesis start_not_step : is_step_start start = false.
+
+  Lemma held_emit a s : (forall e, a <> AtFire e) -> held start s -> held start (emit a s).
+  Proof.
+    intros Hn [E P]. split; [|exact P]. unfold emit. cbn [ts_out]. rewrite events_of_app, E.
+    destruct a; try reflexivity. exfalso. eapply Hn. reflexivity.
+  Qed.
+
+  Lemma held_flush s : held start s -> acc (flush s) [start].
+  Proof.
+    intros [E P]. split; [|constructor]. unfold flush. cbn [ts_out]. rewrite rl_app. unfold rl at 1. rewrite E. simpl.
+    destruct P as [[_ P]|[d [th [_ P]]]]; rewrite P; unfold rl; simpl; rewrite start_result; reflexivity.
+  Qed.
+
+  Lemma held_end_step_if_any th s : held start s ->
+    events_of (ts_out (end_step_if_any th s)) = [] /\ ts_step (end_step_if_any th s) = None /\
+    ts_pending (end_step_if_any th s) = [start] /\ ts_loc (end_step_if_any th s) = ts_loc s.
+  Proof.
+    intros [E P]. unfold end_step_if_any. destruct P as [[St P]|[d [th' [St P]]]]; rewrite St; [repeat split; assumption|].
+    unfold end_step, discard_or_fire, set_step_field. rewrite P. simpl. repeat split; auto.
+  Qed.
+
+  Lemma held_set_step d th s : held start s -> held start (set_step d th s).
+  Proof.
+    intros H. unfold set_step. destruct (held_end_step_if_any th s H) as [E [St [P L]]].
+    split; [exact E|]. right. exists d, th. cbn [hold set_step_field ts_step ts_pending ts_loc]. rewrite P. split; reflexivity.
+  Qed.
+
+  Lemma held_spawn_creator s : held start s -> acc (spawn_creator s) [start].
+  Proof.
+    intros [E P]. unfold spawn_creator.
+    destruct P as [[_ P]|[d [th [_ P]]]]; rewrite P, start_not_step; (split; [cbn [ts_out]; rewrite rl_app; unfold rl; rewrite E; simpl; rewrite start_result; reflexivity|]);
+      unfold quiet_pending; cbn [ts_pending]; repeat constructor.
+  Qed.
+
+  Lemma held_join_all cs s : held start s -> held start (join_all cs s).
+  Proof.
+    unfold join_all. revert s. induction cs as [|c r IH]; intros s H; [exact H|]. simpl. apply IH.
+    apply held_emit; [intros e; discriminate|exact H].
+  Qed.
+
+  (* the invariant of a phase: still held (and then no thread was started), or flushed *)
+  Definition pinv (s : tstate) (children : list (owner * tpath * list atom)) : Prop :=
+    (held start s /\ children = []) \/ (acc s [start] /\ kids_quiet children).
+
+  Lemma spawn_creator_held_idem s : held start s -> spawn_creator (spawn_creator s) = spawn_creator s.
+  Proof.
+    intros [_ P]. destruct P as [[_ P]|[d [th [_ P]]]].
+    - assert (Hs : spawn_creator s = mkTs (ts_loc s) (ts_step s) [] (ts_out s ++ [AtFire start]))
+        by (unfold spawn_creator; rewrite P, start_not_step; reflexivity).
+      rewrite Hs. reflexivity.
+    - assert (Hs : spawn_creator s = mkTs (ts_loc s) (ts_step s) [RStepStart (ts_loc s) (Some d) th] (ts_out s ++ [AtFire start]))
+        by (unfold spawn_creator; rewrite P, start_not_step; reflexivity).
+      rewrite Hs. reflexivity.
+  Qed.
+
+  Lemma step_action_pinv o env tp a x :
+    pinv (sr_state x) (sr_children x) -> pinv (sr_state (step_action o env tp a x)) (sr_children (step_action o env tp a x)).
+  Proof.
+    intros [[H K]|[A K]].
+    2:{ right. exact (action_acc_all (action_size a) a (le_n _) o env tp x [start] (conj A K)). }
+    destruct (sr_raised x) eqn:Er.
+    { destruct a; cbn [step_action]; rewrite Er; left; split; assumption. }
+    destruct a; cbn [step_action]; rewrite Er.
+    - right. pose proof (acc_fire (RLog (ts_loc (sr_state x)) (ts_step (sr_state x)) tp level (MUser o tp payload))) as F.
+      unfold do_log. cbn [sr_state sr_children]. rewrite K. split; [|constructor].
+      apply acc_fire; [reflexivity|]. destruct (Nat.eqb level 3); [apply acc_mark_failed|]; apply held_flush; exact H.
+    - right. unfold do_check. cbn [sr_state sr_children]. rewrite K. split; [|constructor].
+      apply acc_fire; [reflexivity|]. destruct ok; [|apply acc_mark_failed]; apply held_flush; exact H.
+    - right. cbn [sr_state sr_children]. rewrite K. split; [|constructor]. unfold do_url. apply acc_fire; [reflexivity|apply held_flush; exact H].
+    - right. cbn [sr_state sr_children]. rewrite K. split; [|constructor]. unfold do_attach. apply acc_fire; [reflexivity|apply held_flush; exact H].
+    - left. cbn [sr_state sr_children]. split; [apply held_set_step; exact H|exact K].
+    - left. cbn [sr_state sr_children]. split; [apply held_emit; [intros e; discriminate|exact H]|exact K].
+    - left. cbn [sr_state sr_children]. split; [apply held_emit; [intros e; discriminate|exact H]|exact K].
+    - (* ASpawn: the creator flushes the held start; then as in the flushed case *)
+      right.
+      set (x' := mkSres (spawn_creator (sr_state x)) (sr_failed x) (sr_children x) None (sr_unjoined x) (sr_nchild x)).
+      assert (Hx' : sacc x' [start]) by (split; [apply held_spawn_creator; exact H|cbn [sr_children x']; rewrite K; constructor]).
+      pose proof (action_acc_all (action_size (ASpawn body)) (ASpawn body) (le_n _) o env tp x' [start] Hx') as Hs.
+      assert (E : step_action o env tp (ASpawn body) x' = step_action o env tp (ASpawn body) x).
+      { cbn [step_action]. rewrite Er. cbn [sr_raised sr_state sr_failed sr_children sr_unjoined sr_nchild x'].
+        rewrite (spawn_creator_held_idem _ H). reflexivity. }
+      rewrite E in Hs. cbn [step_action] in Hs. rewrite Er in Hs. exact Hs.
+    - left. cbn [sr_state sr_children]. split; [apply held_join_all; exact H|exact K].
+    - left. cbn [sr_state sr_children]. split; [apply held_emit; [intros e; discriminate|exact H]|exact K].
+  Qed.
+
+  Lemma interp_pinv o tp env sc x : pinv (sr_state x) (sr_children x) ->
+    pinv (sr_state (interp o tp env sc x)) (sr_children (interp o tp env sc x)).
+  Proof.
+    intros H. unfold interp.
+    assert (F : pinv (sr_state (fold_left (fun y a => step_action o env tp a y) sc x))
+                     (sr_children (fold_left (fun y a => step_action o env tp a y) sc x))).
+    { revert x H. induction sc as [|a r IH]; intros x H; [exact H|]. simpl. apply IH. apply step_action_pinv. exact H. }
+    unfold close_script. cbn [sr_state sr_children]. destruct F as [[Hh K]|[A K]].
+    - left. split; [apply held_join_all; exact Hh|exact K].
+    - right. split; [apply acc_join_all; exact A|exact K].
+  Qed.
+
+  Lemma run_script_pinv o env sc s failed children : pinv s children ->
+    pinv (sr_state (run_script o env sc s failed children)) (sr_children (run_script o env sc s failed children)).
+  Proof.
+    intros H. unfold run_script.
+    assert (H0 : pinv (sr_state (mkSres (emit (AtBegin o) s) failed children None [] 0)) (sr_children (mkSres (emit (AtBegin o) s) failed children None [] 0))).
+    { cbn [sr_state sr_children]. destruct H as [[Hh K]|[A K]].
+      - left. split; [apply held_emit; [intros e; discriminate|exact Hh]|exact K].
+      - right. split; [apply acc_emit; [intros e; discriminate|exact A]|exact K]. }
+    pose proof (interp_pinv o [] env sc _ H0) as H1.
+    destruct (sr_raised (interp o [] env sc (mkSres (emit (AtBegin o) s) failed children None [] 0))); [exact H1|].
+    cbn [sr_state sr_children]. destruct H1 as [[Hh K]|[A K]].
+    - left. split; [apply held_emit; [intros e; discriminate|exact Hh]|exact K].
+    - right. split; [apply acc_emit; [intros e; discriminate|exact A]|exact K].
+  Qed.
+
+  Definition rpinv (r : rstate) : Prop := pinv (rs_t r) (rs_children r).
+
+  Lemma after_exception_pinv k suite r : rpinv r -> rpinv (after_exception k suite r).
+  Proof.
+    intros H. unfold after_exception, rpinv. destruct (is_exception k); [|exact H]. cbn [rs_t rs_children].
+    destruct H as [[Hh K]|[A K]].
+    - right. rewrite K. split; [|constructor].
+      assert (L : forall m, acc (fst (do_log [] 3 m (rs_t r))) [start]).
+      { intros m. unfold do_log. cbn [fst]. apply acc_fire; [reflexivity|]. simpl. apply acc_mark_failed. apply held_flush. exact Hh. }
+      destruct k; cbn [handle_exception]; try apply L.
+      + destruct suite; [apply acc_emit; [intros e; discriminate|]|]; apply L.
+      + apply acc_emit; [intros e; discriminate|]. apply L.
+    - right. split; [apply handle_exception_acc; exact A|exact K].
+  Qed.
+
+  Lemma call_sfun_pinv env f r : rpinv r -> rpinv (fst (call_sfun env f r)).
+  Proof.
+    intros H. destruct f as [fx| |p sc|p sc]; cbn [call_sfun fst]; try exact H; unfold rpinv; cbn [rs_t rs_children]; apply run_script_pinv; exact H.
+  Qed.
+
+  Lemma call_tfun_pinv env f r : rpinv r -> rpinv (fst (call_tfun env f r)).
+  Proof.
+    intros H. destruct f as [fx|p sc|p sc]; cbn [call_tfun fst].
+    - destruct (fx_generator fx); [|exact H]. cbn [fst]. unfold rpinv. cbn [rs_t rs_children]. apply run_script_pinv. exact H.
+    - unfold rpinv. cbn [rs_t rs_children]. apply run_script_pinv. exact H.
+    - unfold rpinv. cbn [rs_t rs_children]. apply run_script_pinv. destruct H as [[Hh K]|[A K]].
+      + left. split; [apply held_emit; [intros e; discriminate|exact Hh]|exact K].
+      + right. split; [apply acc_emit; [intros e; discriminate|exact A]|exact K].
+  Qed.
+
+  Lemma run_setup_funcs_pinv env suite pairs : forall r kept, rpinv r -> rpinv (fst (run_setup_funcs env suite pairs r kept)).
+  Proof.
+    induction pairs as [|[sf td] rest IH]; intros r kept H; [exact H|]. destruct sf as [f|]; cbn [run_setup_funcs]; [|apply IH; exact H].
+    pose proof (call_sfun_pinv env f r H) as H1. destruct (call_sfun env f r) as [r1 k]. cbn [fst] in H1.
+    destruct k as [k|]; [cbn [fst]; apply after_exception_pinv; exact H1|].
+    destruct (rs_failed r1); [exact H1|apply IH; exact H1].
+  Qed.
+
+  Lemma run_teardown_list_pinv env suite l : forall r, rpinv r -> rpinv (run_teardown_list env suite l r).
+  Proof.
+    induction l as [|[f|] rest IH]; intros r H; [exact H| |]; cbn [run_teardown_list]; [|apply IH; exact H].
+    destruct (rs_died r); [exact H|].
+    pose proof (call_tfun_pinv env f r H) as H1. destruct (call_tfun env f r) as [r1 k]. cbn [fst] in H1.
+    destruct k as [k|]; apply IH; [apply after_exception_pinv|]; exact H1.
+  Qed.
+
+  (* the end of a phase: the end event is dropped together with a start that is still held, and fired otherwise *)
+  Variable end_ : revt.
+  Variable is_start : revt -> bool.
+  Hypothesis end_result : result_level end_ = true.
+  Hypothesis is_start_start : is_start start = true.
+  Hypothesis is_start_only : forall e, result_level e = false -> is_start e = false.
+
+  Lemma close_phase_brackets s children : pinv s children ->
+    let s1 := discard_or_fire is_start end_ (end_step_if_any [] s) in
+    (events_of (ts_out s1) = [] /\ children = []) \/ (rl (ts_out s1) = [start; end_] /\ kids_quiet children).
+  Proof.
+    intros [[Hh K]|[A K]]; cbv zeta.
+    - left. split; [|exact K]. destruct (held_end_step_if_any [] s Hh) as [E [St [P L]]].
+      unfold discard_or_fire. rewrite P. simpl. rewrite is_start_start. exact E.
+    - right. split; [|exact K]. pose proof (acc_end_step_if_any [] s [start] A) as [A1 Q1].
+      unfold discard_or_fire. destruct (rev (ts_pending (end_step_if_any [] s))) as [|last before] eqn:Er.
+      + unfold fire, emit. cbn [ts_out]. rewrite rl_app, A1. unfold rl. simpl. rewrite end_result. reflexivity.
+      + assert (Hl : result_level last = false).
+        { unfold quiet_pending in Q1. rewrite Forall_forall in Q1. apply Q1. apply in_rev. rewrite Er. left. reflexivity. }
+        rewrite (is_start_only _ Hl). unfold fire, emit. cbn [ts_out]. rewrite rl_app, A1. unfold rl. simpl. rewrite end_result. reflexivity.
+  Qed.
+End Phase.
+
+(* A setup phase (session setup, suite setup) and a teardown phase: either nothing at all reaches the queue — the start event
+   is dropped together with the end event, no thread was started — or the start event and the end event are both fired,
+   start first and end last among the result-level events.  Never a start without its end (unless a BaseException escaped). *)
+Theorem setup_phase_brackets env l start end_ is_start d pairs :
+  result_level start = true -> is_step_start start = false -> result_level end_ = true ->
+  is_start start = true -> (forall e, result_level e = false -> is_start e = false) ->
+  let o := setup_phase env l start end_ is_start d pairs in
+  to_res o <> TkDied ->
+  (events_of (to_main o) = [] /\ to_children o = []) \/ (rl (to_main o) = [start; end_] /\ kids_quiet (to_children o)).
+Proof.
+  intros Rs Ns Re Is Io. unfold setup_phase. destruct (any_setup pairs); [|intros _; left; split; reflexivity].
+  set (r0 := mkRs (set_step d [] (hold start (fresh_cursor l []))) false [] false).
+  assert (H0 : rpinv start r0).
+  { left. split; [|reflexivity]. apply held_set_step. split; [reflexivity|]. left. split; reflexivity. }
+  assert (H1 : rpinv start (fst (run_setup_funcs env None pairs r0 []))) by (apply run_setup_funcs_pinv; assumption).
+  destruct (run_setup_funcs env None pairs r0 []) as [r kept]. cbn [fst] in H1.
+  destruct (rs_died r) eqn:D; [unfold finish; cbn [to_res]; rewrite D; congruence|]. intros _.
+  unfold finish. cbn [to_main to_children rs_t rs_children].
+  apply close_phase_brackets; assumption.
+Qed.
+
+Theorem teardown_phase_brackets env l start end_ is_start d kept :
+  result_level start = true -> is_step_start start = false -> result_level end_ = true ->
+  is_start start = true -> (forall e, result_level e = false -> is_start e = false) ->
+  let o := teardown_phase env l start end_ is_start d kept in
+  to_res o <> TkDied ->
+  (events_of (to_main o) = [] /\ to_children o = []) \/ (rl (to_main o) = [start; end_] /\ kids_quiet (to_children o)).
+Proof.
+  intros Rs Ns Re Is Io. unfold teardown_phase. destruct (any_teardown kept); [|intros _; left; split; reflexivity].
+  set (r0 := mkRs (set_step d [] (hold start (fresh_cursor l []))) false [] false).
+  assert (H0 : rpinv start r0).
+  { left. split; [|reflexivity]. apply held_set_step. split; [reflexivity|]. left. split; reflexivity. }
+  assert (H1 : rpinv start (run_teardown_list env None (rev kept) r0)) by (apply run_teardown_list_pinv; assumption). unfold run_teardown_funcs.
+  destruct (rs_died (run_teardown_list env None (rev kept) r0)) eqn:D; [unfold finish; cbn [to_res]; rewrite D; congruence|]. intros _.
+  cbn [to_main to_children].
+  apply close_phase_brackets; assumption.
+Qed.
+
+Definition phase_events (t : task) : option (revt * revt) :=
+  match t_kind t with
+  | KSessionSetup => Some (RSessionSetupStart, RSessionSetupEnd)
+  | KSessionTeardown => Some (RSessionTeardownStart, RSessionTeardownEnd)
+  | KSuiteInit => Some (RSuiteSetupStart (t_path t), RSuiteSetupEnd (t_path t))
+  | KSuiteTeardown => Some (RSuiteTeardownStart (t_path t), RSuiteTeardownEnd (t_path t))
+  | _ => None
+  end.
+
+(* every setup / teardown task of every project, whatever was decided for it: both brackets or nothing *)
+Theorem task_phase_brackets pr reg force t md setup_md o start end_ :
+  task_sem pr reg force t md setup_md = Some o -> phase_events t = Some (start, end_) -> to_res o <> TkDied ->
+  (events_of (to_main o) = [] /\ to_children o = []) \/ (rl (to_main o) = [start; end_] /\ kids_quiet (to_children o)).
+Proof.
+  intros H Hp Hd. unfold phase_events in Hp. unfold task_sem in H.
+  assert (Io1 : forall e, result_level e = false -> is_session_setup_start e = false) by (intros e; destruct e; simpl; congruence).
+  assert (Io2 : forall e, result_level e = false -> is_session_teardown_start e = false) by (intros e; destruct e; simpl; congruence).
+  assert (Io3 : forall e, result_level e = false -> is_suite_setup_start e = false) by (intros e; destruct e; simpl; congruence).
+  assert (Io4 : forall e, result_level e = false -> is_suite_teardown_start e = false) by (intros e; destruct e; simpl; congruence).
+  destruct (t_kind t); try discriminate; inversion Hp; subst start end_; clear Hp.
+  - destruct md; inversion H; subst o; [|left; split; reflexivity].
+    apply setup_phase_brackets; auto.
+  - destruct (find_suite_in (p_suites pr) (t_path t) false) as [[s inh]|]; [|discriminate].
+    destruct md; inversion H; subst o; [|left; split; reflexivity].
+    apply setup_phase_brackets; auto.
+  - destruct (find_suite_in (p_suites pr) (t_path t) false) as [[s inh]|]; [|discriminate].
+    inversion H; subst o. apply teardown_phase_brackets; auto.
+  - inversion H; subst o. apply teardown_phase_brackets; auto.
+Qed.
